@@ -10,10 +10,13 @@ import (
 	"crypto/aes"
 	"encoding/binary"
 	"fmt"
+	"math/bits"
 	"math/rand"
+	"reflect"
 	"runtime"
 	"sync"
 	"testing"
+	"unsafe"
 
 	"github.com/privacybydesign/gabi/big"
 	"github.com/privacybydesign/gabi/internal/vfh"
@@ -193,6 +196,102 @@ func TestVF_C20_Keystream(t *testing.T) {
 		}
 		if bad != "" {
 			rec.FailT("keystream-partition-violated", map[string]any{"goroutines": g, "what": bad})
+		}
+	}
+}
+
+// TestVF_C20_KeystreamLongRun: the generator after a long life. The block counter is moved (white box,
+// by reflection on the integer field "counter") to just below 2^32, 2^33 and 2^48, then goroutines
+// read across the boundary. Every block handed out must be a fresh one: decrypted with the known
+// key, the blocks must be exactly the counters from the set value upwards, none below it (those
+// were handed out earlier in the generator's life) and none twice.
+func TestVF_C20_KeystreamLongRun(t *testing.T) {
+	rec := vfh.New(t, "C20")
+	defer rec.Flush()
+	for rep := 0; rep < rec.N(12, 120); rep++ {
+		if !rec.Mine(rep) {
+			continue
+		}
+		var seed [32]byte
+		binary.LittleEndian.PutUint64(seed[:], uint64(rec.Seed())*104729+uint64(rep))
+		c, err := NewCPRNG(&seed)
+		if err != nil {
+			t.Fatal(err)
+		}
+		boundary := []uint64{1 << 32, 1 << 33, 1 << 48, 1 << 32}[rep%4]
+		back := uint64(1 + rep%37)
+		start := boundary - back
+		f := reflect.ValueOf(c).Elem().FieldByName("counter")
+		if !f.IsValid() {
+			rec.Class("whitebox-unavailable/CPRNG.counter", 1)
+			rec.Case("S3-long-run/unavailable", true, "lr-unavailable")
+			return
+		}
+		f = reflect.NewAt(f.Type(), unsafe.Pointer(f.UnsafeAddr())).Elem()
+		switch {
+		case f.Kind() == reflect.Uint64 || f.Kind() == reflect.Uint32 || f.Kind() == reflect.Uint:
+			if f.OverflowUint(start) {
+				// the counter cannot even hold a value this large: it wraps earlier; start just below its top
+				start = (uint64(1) << (8 * f.Type().Size())) - back
+				boundary = start + back
+			}
+			f.SetUint(start)
+		case f.Kind() == reflect.Struct && f.NumField() > 0 && f.Field(f.NumField()-1).Kind() == reflect.Uint64:
+			v := f.Field(f.NumField() - 1) // sync/atomic.Uint64{_, _, v}
+			reflect.NewAt(v.Type(), unsafe.Pointer(v.UnsafeAddr())).Elem().SetUint(start)
+		default:
+			rec.Class("whitebox-unavailable/CPRNG.counter", 1)
+			rec.Case("S3-long-run/unavailable", true, "lr-unavailable")
+			return
+		}
+		g := []int{1, 2, 8}[rep%3]
+		blocks := make([][][16]byte, g)
+		var wg sync.WaitGroup
+		for i := 0; i < g; i++ {
+			wg.Add(1)
+			go func(i int) {
+				defer wg.Done()
+				for j := 0; j < 64/g; j++ {
+					var b [16]byte
+					if _, err := c.Read(b[:]); err == nil {
+						blocks[i] = append(blocks[i], b)
+					}
+				}
+			}(i)
+		}
+		wg.Wait()
+		blk, _ := aes.NewCipher(seed[:])
+		seen := map[uint64]bool{}
+		bad := ""
+		n := 0
+		for i := range blocks {
+			for _, b := range blocks[i] {
+				var pt [16]byte
+				blk.Decrypt(pt[:], b[:])
+				v := binary.LittleEndian.Uint64(pt[:8])
+				n++
+				switch {
+				case !bytes.Equal(pt[8:], make([]byte, 8)):
+					bad = "a block handed out is not a keystream block of the generator"
+				case v < start:
+					bad = fmt.Sprintf("block of counter %d handed out again after the counter had passed %d (it was handed out earlier in the generator's life)", v, start)
+				case seen[v]:
+					bad = fmt.Sprintf("block of counter %d handed out twice", v)
+				}
+				seen[v] = true
+			}
+		}
+		rec.Case(fmt.Sprintf("S3-long-run/boundary=2^%d/goroutines=%d", bits.Len64(boundary)-1, g), true, fmt.Sprintf("lr|%d|%d|%d", boundary, back, rep))
+		if rep == 0 {
+			rec.Sample(func() any {
+				return map[string]any{"script": "S3-long-run", "counter_set_to": start, "blocks_read": n, "goroutines": g}
+			})
+		}
+		if bad == "" && uint64(len(seen)) != uint64(n) {
+			bad = "fewer distinct blocks than reads"
+		}
+		if bad != "" {
+			rec.FailT("keystream-block-handed-out-twice:long-run", map[string]any{"counter_set_to": start, "what": bad, "goroutines": g})
 		}
 	}
 }
